@@ -179,6 +179,12 @@ def run_pipeline_traced(left, right, pipe):
             super().run(input_step, cfg)
             snap = {"state": self.state}
             two = self.right_disp_map == "cross_checking_accurate"
+            if input_step == "matching_cost":
+                # what this scale works on: the images of the pyramid level and the per-pixel interval grids
+                snap["images"] = {sd: {"im": np.array(ds["im"].data, dtype=np.float64),
+                                       "msk": np.array(ds["msk"].data).astype(np.int64) if "msk" in ds else None}
+                                  for sd, ds in (("left", self.left_img), ("right", self.right_img))}
+                snap["grids"] = (np.array(self.disp_min, dtype=np.float64), np.array(self.disp_max, dtype=np.float64))
             if self.state == "cost_volume":
                 for side, cv in (("left", self.left_cv), ("right", self.right_cv if two else None)):
                     if cv is None:
